@@ -459,6 +459,10 @@ class Interp:
     def global_ptr(self, name):
         g = self.globals
         c = g.get(name)
+        if c is None and self.init_globals is not None and self.globals is not self.init_globals and name in self.init_globals:
+            # copy-on-first-use of the initialised global (per path)
+            c = copy.deepcopy(self.init_globals[name])
+            g[name] = c
         if c is None:
             gd = self.prog.globals.get(name)
             init = self.globals_init.get(name)
@@ -508,7 +512,7 @@ class Interp:
 
     def new_path(self, prefix):
         self.path = PathCtx(prefix, self.cfg['timeout_ms'])
-        self.globals = copy.deepcopy(self.init_globals) if self.init_globals else {}
+        self.globals = {}
         self.depth = 0
         self.callstack = []
         self.path_instrs = 0
